@@ -43,7 +43,8 @@ def run_batch(g, tier, name, runs, out, acc, cfg_text=None, decode=None, module=
         # `settle`, where streams the application never finished are abandoned) the connection may end only for a
         # cause the monitor sees (dropped stream, chunk beyond the declared size); refusals have to be justified
         keep = ("C06:connection-ended-although-peer-was-orderly", "C06:send-refused-although-no-payload-is-owed",
-                "C06:free-identifier-refused-as-in-use", "C06:panic")
+                "C06:free-identifier-refused-as-in-use", "C06:panic",
+                "C08:payload-piece-refused-although-it-fits-the-declared-size")
         verdict["viol"] += [v for v in v2["viol"] if v["why"] in keep and v.get("cmd") != "settle"]
         verdict["events"] += v2["events"]
     out["wall"]["harness"] = round(out["wall"].get("harness", 0) + hw, 2)
